@@ -220,6 +220,8 @@ pub struct Shadow {
     /// leaks (objects, blocks, deferred functions) are also attributed to this (C20 in the
     /// thread tear-down families: "without leaking the garbage that thread produced")
     pub leak_extra: &'static str,
+    /// collection rounds the janitor made at the end
+    pub janitor_rounds_done: u64,
     /// threads that are running their thread-local destructors
     pub tls_phase: Vec<bool>,
     /// participant of each thread while it runs its program (0 = unknown / winding down)
@@ -296,6 +298,7 @@ impl Shadow {
             strong_extra: "",
             weak_extra: "",
             leak_extra: "",
+            janitor_rounds_done: 0,
             tls_phase: Vec::new(),
             plocal: Vec::new(),
             dtor_stack: Vec::new(),
@@ -559,7 +562,14 @@ impl Shadow {
                 // C01: `Snapshot::counted` is one of the ways of obtaining an owner the property
                 // lists, and its precondition is exactly a valid Snapshot: from here on the holder
                 // can turn its Snapshot into an Rc of an object whose destructor has run.
-                let props = if h.src == Src::WsnapUpgrade { "C02,C05,C01" } else { "C02,C01" };
+                // C13 in its second form ("anything unlinked during a critical section's lifetime
+                // outlives it") when the Snapshot was read from a cell inside this critical section:
+                // the object was linked then
+                let props = match h.src {
+                    Src::WsnapUpgrade => "C02,C05,C01",
+                    Src::Load | Src::CasCurrent | Src::CasTagResult => "C02,C01,C13",
+                    _ => "C02,C01",
+                };
                 sim().violation(props, "destruct-under-snapshot", &format!("destruct-under-snapshot/{}/src={}", path_name(depth), h.src.name()), &det);
             }
         }
